@@ -170,6 +170,8 @@ class Run:
             if m:
                 res.generated = int(m.group(1))
                 res.distinct = max(res.distinct, int(m.group(1)))
+        if workers > 1 and res.json:
+            res.json.sort(key=lambda x: json.dumps(x, sort_keys=True))   # worker interleaving must not influence seeded sampling
         bad = ("Error:" in out) or ("is violated" in out) or ("Exception" in out and "Finished" not in out)
         if mode == "bfs":
             if p.returncode != 0 or bad or "Model checking completed. No error has been found" not in out:
